@@ -188,6 +188,16 @@ func postDirect(seed uint64, tier string, args []string, w *bufio.Writer) {
 			}
 		}
 	}
+	// ping-pong: every Post finds the loop blocked in its wait, so every single wake-up matters
+	pp := 4000
+	if tier == "thorough" {
+		pp = 40000
+	}
+	if ok, why := postPingPong(3, pp); !ok {
+		fails++
+		fmt.Fprintf(w, "DIRECT-FAIL key=post.%s mode=pingpong posts=%d\n", why, 3*pp)
+	}
+	total += 3 * pp
 	fmt.Fprintf(w, "DIRECT-STAT {\"post_stress_rounds\": %d, \"post_stress_handlers\": %d, \"post_stress_failures\": %d}\n", rounds, total, fails)
 }
 
@@ -306,5 +316,69 @@ func postStress(posters, per, nest int, slowLoop bool) (bool, string, int) {
 		return why == "", why, expected
 	case <-time.After(40 * time.Second):
 		return false, "loop-deadlocked", expected
+	}
+}
+
+// postPingPong: each poster posts one handler and waits until it has run before posting the next, so the loop is
+// (almost always) blocked in epoll_wait when Post is called: a wake-up that is lost leaves the handler unexecuted.
+func postPingPong(posters, per int) (bool, string) {
+	result := make(chan string, 1)
+	go func() {
+		runtime.LockOSThread()
+		defer runtime.UnlockOSThread()
+		ioc, err := sonic.NewIO()
+		if err != nil {
+			result <- "newio"
+			return
+		}
+		defer ioc.Close()
+		var stop int32
+		var stuck atomic.Value
+		var wg sync.WaitGroup
+		for p := 0; p < posters; p++ {
+			wg.Add(1)
+			go func(p int) {
+				defer wg.Done()
+				for s := 0; s < per && atomic.LoadInt32(&stop) == 0; s++ {
+					ran := make(chan struct{})
+					if err := ioc.Post(func() { close(ran) }); err != nil {
+						stuck.Store("post-returned-error")
+						return
+					}
+					select {
+					case <-ran:
+					case <-time.After(2 * time.Second):
+						stuck.Store("posted-handler-never-run-loop-not-woken")
+						atomic.StoreInt32(&stop, 1)
+						return
+					}
+				}
+			}(p)
+		}
+		done := make(chan struct{})
+		go func() { wg.Wait(); close(done); _ = ioc.Post(func() {}) }()
+		for {
+			select {
+			case <-done:
+				if v := stuck.Load(); v != nil {
+					result <- v.(string)
+				} else {
+					result <- ""
+				}
+				return
+			default:
+			}
+			// block in the wait: no busy polling, or a lost wake-up would be papered over
+			if err := ioc.RunOneFor(4 * time.Second); err != nil && err != sonicerrors.ErrTimeout {
+				result <- "loop-error"
+				return
+			}
+		}
+	}()
+	select {
+	case why := <-result:
+		return why == "", why
+	case <-time.After(120 * time.Second):
+		return false, "loop-deadlocked"
 	}
 }
